@@ -303,7 +303,7 @@ _EXTRA = {
     'R107': (['C18'], 'R107: the condition of the "unbalanced quotes" error is, as a propositional formula over startswith(quote) / endswith(quote), exactly their exclusive or (no further atom).'),
     'R6': (['C01'], 'R6: a text is split into lines at LF, CRLF and CR only (str.splitlines would also cut inside quoted strings and comments at VT, FF, NEL, LS, PS).'),
     'R13': (['C05'], 'R13: no set iteration order reaches an ordered result (key precedence of --rearrange must be the written order).'),
-    'R24': (['C10'], 'R24: in the tool the variables are renamed after the tree was rearranged (pipeline order).'),
+    'R24': (['C10', 'C11'], 'R24: in the tool the variables are renamed after the tree was rearranged (pipeline order).'),
     'R25': (['C11'], 'R25: --reify-edges and --dereify-edges each guard exactly their own step (both may be given).'),
     'R5': (['C14', 'C20'], 'R5: interpretation turns an inverted triple round through Model.deinvert only (the no-op model overrides exactly that method).'),
     'R11': (['C14'], 'R11: a variable reference is compared with the variable set after its alignment suffix was split off.'),
